@@ -5,7 +5,7 @@ META = dict(
           'and calls the callback (which checks its sandbox reference and performs a nested invocation) / unregister / free / destroy / create again / ... / destroy; '
           'scheduling points at every acquire and release of RLBox\'s shared locks (own lock type through RLBOX_USE_CUSTOM_SHARED_LOCK; a second build keeps the library\'s DEFAULT lock macros and interposes the pthread rwlock operations they end in) and at yields inside mbox backend '
           'entry points, guest functions and callbacks; all schedules with at most 2 preemptions for two threads and 1 for three threads (thorough: 3 and 2) are enumerated depth-first (choice 0 = keep '
-          'running). Oracle per schedule: each thread\'s observation sequence equals its solo run; no deadlock; no vector-clock race on the RLBOX_VERIF_SHARED accesses '
+          'running); the three-thread space is explored a second time with every sandbox created before the threads start (list order 0,1,2), so that use of the last-created sandbox races with the destruction of an earlier one within the same bound. Oracle per schedule: each thread\'s observation sequence equals its solo run; no deadlock; no vector-clock race on the RLBOX_VERIF_SHARED accesses '
           'to the process-wide sandbox list; a replayed prefix that does not fit is a hard error. Backends: mbox in registry mode (the list is on the hot path of every '
           'pointer translation) and noop (thread_local record, library-provided and embedder-provided). states/transitions = scheduling points executed, traces = complete schedules.'),
     assumptions=['2-3 threads, preemption bound 1-3, fixed scripts - not the "2..16 threads, random sequences" of the quantifier text',
@@ -31,7 +31,7 @@ def run(ctx):
     for b, th, bound, ln in plan:
         ctx.run(bins[b], ['--threads', th, '--bound', bound, '--len', ln])
     # all sandboxes created before the threads start: use / destroy / re-create race from the first step on
-    pre = [('c18_mbox', 3, 2, 1), ('c18_noop', 3, 2, 1), ('c18_mbox', 2, 3, 2)] if ctx.thorough else [('c18_mbox', 3, 1, 1), ('c18_noop', 3, 1, 1)]
+    pre = [('c18_mbox', 3, 2, 1), ('c18_noop', 3, 2, 1), ('c18_mbox', 2, 2, 2)] if ctx.thorough else [('c18_mbox', 3, 1, 1), ('c18_noop', 3, 1, 1)]
     for b, th, bound, ln in pre:
         ctx.run(bins[b], ['--threads', th, '--bound', bound, '--len', ln, '--pre', 1])
     if ctx.thorough:
